@@ -1,6 +1,8 @@
 package main
 
 import (
+	"fmt"
+
 	"github.com/gogpu/naga/zverif/proto"
 )
 
@@ -391,9 +393,57 @@ var familiesC12 = []family{
 	{"scribble", 6, genScribble},
 }
 
+// G3 (C14): the caller resolves its OWN copy in place; a failed attempt (value
+// map missing a required override) is followed by a retry with a complete map.
+func genInPlace(b *builder, c *corpus, nSites int) {
+	if len(c.withOv) == 0 {
+		genSeqMulti(b, c, nSites)
+		return
+	}
+	t := b.task()
+	p := pick(b.r, c.withOv)
+	m, _ := b.lower(t, p)
+	full := func() []proto.Const {
+		var cs []proto.Const
+		vals := []string{"1", "2", "3", "0.5", "7"}
+		for _, ov := range p.info.Overrides {
+			key := ov.Name
+			if ov.ID >= 0 && b.r.chance(0.5) {
+				key = fmt.Sprint(ov.ID)
+			}
+			if key != "" {
+				cs = append(cs, proto.Const{Key: key, Value: pick(b.r, vals)})
+			}
+		}
+		return cs
+	}
+	if b.r.chance(0.7) {
+		// failing attempts first: drop the value of one override without default
+		cs := full()
+		for i, ov := range p.info.Overrides {
+			if !ov.HasDefault && i < len(cs) {
+				cs = append(cs[:i:i], cs[i+1:]...)
+				break
+			}
+		}
+		for k := 0; k < 1+b.r.intn(2); k++ {
+			ref := b.add(t, proto.Op{Kind: proto.OpResolveInPlace, Mod: m, Consts: cs})
+			if missingRequired(p, cs) {
+				b.expectErr[ref] = true
+			}
+		}
+	}
+	b.add(t, proto.Op{Kind: proto.OpResolveInPlace, Mod: m, Consts: full()})
+	for i := 0; i < 1+b.r.intn(3); i++ {
+		b.add(t, b.backendOp(pick(b.r, backendKinds), m))
+	}
+	b.drawFaults(nSites, false)
+}
+
 var familiesC14 = []family{
-	{"resolve", 60, genResolve},
-	{"constopt", 40, genConstOpt},
+	{"resolve", 52, genResolve},
+	{"constopt", 36, genConstOpt},
+	{"inplace", 12, genInPlace},
 }
 
 func pickFamily(r *rng, fams []family) family {
@@ -417,7 +467,9 @@ func pickFamily(r *rng, fams []family) family {
 // ---------------------------------------------------------------------------
 
 func isCreator(k string) bool { return k == proto.OpLower || k == proto.OpResolve }
-func isMutator(k string) bool { return k == proto.OpCompact || k == proto.OpInline }
+func isMutator(k string) bool {
+	return k == proto.OpCompact || k == proto.OpInline || k == proto.OpResolveInPlace
+}
 
 // chainFor lists, in order, the operations a pristine process must run to
 // reproduce operation (t,o) alone: creators of its input object (recursively)
